@@ -18,3 +18,13 @@ pub fn array_try_from<'a, T: Copy + 'a, const N: usize>(
     }
     Ok(out)
 }
+
+/// f64::powf restricted to what decode_angle / decode_angular_velocity use: base 2, integral
+/// exponent in [-15, 0]; the result 2^k is exact.  Anything else fails the harness (so the stub
+/// cannot hide a changed call).  CBMC's own powf is a nondeterministic over-approximation.
+pub fn powf_pow2(base: f64, e: f64) -> f64 {
+    assert!(base == 2.0, "powf stub: base must be 2");
+    let k = e as i32;
+    assert!(k as f64 == e && k <= 0 && k >= -15, "powf stub: exponent outside [-15, 0]");
+    f64::from_bits(((1023 + k) as u64) << 52)
+}
